@@ -41,6 +41,7 @@ def adversarial():
         prop("x0word", [own("X0Base"), as_ref("Activity")], ["xsd:string", "rdf:langString"], functional=True),
         prop("x0kept", [own("X0Base")], ["xsd:dateTime", "xsd:duration"], without=[own("X0Bottom")]),
         prop("x0count", [own("X0Mixed"), as_ref("Question")], ["xsd:nonNegativeInteger", "xsd:boolean", "xsd:float"]),
+        prop("x0fkept", [own("X0Base")], ["xsd:boolean", own("X0Left")], functional=True, without=[own("X0Right")]),   # functional and withheld
         prop("x0title", [own("X0Base"), own("X0Trip")], ["xsd:string", "rdf:langString"]),
         prop("x0motto", [own("X0Trip")], ["rdf:langString", "xsd:string"], functional=True),
     ]
